@@ -59,7 +59,7 @@ def execute(case, workdir):
         if case["mode"] == "twoval":
             # --twoval is implemented for the (default) hybrid mode only
             args = ["--lib", "hybrid"] + args[2:]
-        rc, out, err = clisim.run_bin(args, workdir)
+        rc, out, err = clisim.run_bin(args, workdir, timeout=20)
         if rc != 0:
             return {"oracle": "cli-search", "class": "did-not-deliver", "key": "cli-search/did-not-deliver",
                     "message": "adf-bdd %s exited %s: %s [%s]" % (" ".join(args[:-1]), rc, " ".join(err.split())[-300:], case["adf"])}
@@ -69,7 +69,7 @@ def execute(case, workdir):
                     "message": "adf-bdd %s printed %s, the lazy semantics print %s [%s]" % (" ".join(args[:-1]), got, want, case["adf"])}
         return None
     except subprocess.TimeoutExpired:
-        return {"oracle": "cli-search", "class": "did-not-terminate", "key": "cli-search/did-not-terminate", "message": "no exit within 120 s [%s heu=%s]" % (case["adf"], case["heu"])}
+        return {"oracle": "cli-search", "class": "did-not-terminate", "key": "cli-search/did-not-terminate", "message": "no exit within 20 s (instances of this size take milliseconds) [%s heu=%s]" % (case["adf"], case["heu"])}
     finally:
         shutil.rmtree(workdir, ignore_errors=True)
 
